@@ -259,6 +259,20 @@ def run_case(case, rec, ssj=None):
         attrs = rng.sample(cols, rng.randint(1, len(cols)))
     else:
         attrs = [rng.choice(cols) for _ in range(rng.randint(1, 4))]
+    # other list-likes a caller computes the selection with; an empty selection profiles nothing
+    form = rng.random()
+    if attrs is not None:
+        if form < 0.06:
+            attrs = []
+        elif form < 0.14:
+            attrs = tuple(attrs)
+        elif form < 0.20:
+            attrs = pd.Index(attrs)
+        elif form < 0.26:
+            attrs = np.array(attrs, dtype=object)
+        elif form < 0.30 and len(cols) > 1:
+            attrs = df.columns[1:]
+    rec.add('profile_attrs_forms', type(attrs).__name__)
     snap = T.snapshot_df(df) if len(df) < 100 else None
     tag = 'profile_table_for_join(%d rows, attrs=%r): ' % (len(df), attrs)
     try:
